@@ -173,11 +173,13 @@ def c_rans(a):
     return "ARaise IllTyped"
 
 
-def gen_render_graph(rng, plain=False):
+def gen_render_graph(rng, plain=False, lost_end=True):
     """universe with members and surrounding graph: self-loops, parallel and mixed edges, subclasses, isolated
     vertices, links leaving the universe, occasionally a half-assigned edge / unknown link class"""
     ops, vids, lids, _ = Q.gen_graph_ops(rng, nv=rng.randint(1, 6), nl=rng.randint(0, 8), odd=rng.choice([0.0, 0.0, 0.0, 0.15]),
                                          universes=False)
+    if not lost_end:
+        ops = [op for op in ops if op[0] != "LUF"]
     if rng.random() < 0.75:
         # mostly the two edge classes (and their subclasses): the renderers' normal domain
         ops = [([op[0], rng.choice(["KDir", "KUnd", "KDirSub", "KUndSub", "KDir", "KUnd"])] + op[2:]) if op[0] == "NE" else op for op in ops]
@@ -220,6 +222,7 @@ class RenderLeg(Leg):
     case_type = "list (" + RTYPE + ")"
     shard = 30
     kinds = ()
+    lost_end_links = True      # whether the generated graphs may hold links that lost an end
 
     def queries_for(self, rng, u):
         raise NotImplementedError
@@ -229,7 +232,7 @@ class RenderLeg(Leg):
 
     def generate(self, rng, n):
         for _ in range(n):
-            ops, u, vids = gen_render_graph(rng)
+            ops, u, vids = gen_render_graph(rng, lost_end=self.lost_end_links)
             qs = self.queries_for(rng, u)
             rng.shuffle(qs)                                   # e.g. a sorted rendering before the unsorted one
             case = {"ops": ops, "queries": qs, "caching": rng.random() < 0.5}
